@@ -78,7 +78,9 @@ class GWCSAPIMixin(BaseHighLevelWCS, BaseLowLevelWCS):
             if self.output_frame.naxes == 1:
                 result = [result]
 
-            result = tuple(r.to_value(unit) for r, unit in zip(result, frame.unit))
+            # a frame known by name only (None here) has pixel axes
+            units = frame.unit if frame is not None else (u.pix,) * len(result)
+            result = tuple(r.to_value(unit) for r, unit in zip(result, units))
 
         # If we only have one output axes, we shouldn't return a tuple.
         if self.output_frame.naxes == 1 and isinstance(result, tuple):
@@ -87,7 +89,8 @@ class GWCSAPIMixin(BaseHighLevelWCS, BaseLowLevelWCS):
 
     def _add_units_input(self, arrays, transform, frame):
         if transform.uses_quantity:
-            return tuple(u.Quantity(array, unit) for array, unit in zip(arrays, frame.unit))
+            units = frame.unit if frame is not None else (u.pix,) * len(arrays)
+            return tuple(u.Quantity(array, unit) for array, unit in zip(arrays, units))
 
         return arrays
 
@@ -320,7 +323,7 @@ class GWCSAPIMixin(BaseHighLevelWCS, BaseLowLevelWCS):
         """
         result = self.invert(*world_objects, with_units=True)
 
-        if self.input_frame.naxes > 1:
+        if self.pixel_n_dim > 1:
             first_res = result[0]
             if not utils.isnumerical(first_res):
                 result = [i.value for i in result]
